@@ -27,7 +27,7 @@ run_demo() { # copies all demo test files, runs their tests per package, prints 
     cp "$t" $WT/$d/; copied="$copied $WT/$d/$(basename $t)"
     case " $dirs " in *" $d "*) ;; *) dirs="$dirs $d";; esac
   done
-  local flags=""; grep -q -i '"-race\|go test -race\| -race ' $SRC/meta.json 2>/dev/null && flags="-race"
+  local flags=""; [ -z "${DEMO_NORACE:-}" ] && grep -q -i '"-race\|go test -race\| -race ' $SRC/meta.json 2>/dev/null && flags="-race"
   for d in $dirs; do
     local names=$(cat $SRC/*_test.go | grep -o '^func Test[A-Za-z0-9_]*' | sed 's/func //' | paste -sd'|')
     (cd $WT && timeout 900 go test $flags -vet=off -count=${DEMO_COUNT:-1} -run "^($names)\$" ./$d/ >>/tmp/demo-$ID.log 2>&1) || res=FAIL
